@@ -426,10 +426,12 @@ func (s *socket) clearTransport() {
 // Possible reasons: `ping timeout`, `client error`, `parse error`,
 // `transport error`, `server close`, `transport close`
 func (s *socket) OnClose(reason string, description ...error) {
-	if s.ReadyState() != "closed" {
-		description = append(description, nil)
+	// the test and the transition are one atomic step: two concurrent close
+	// causes (e.g. ping timeout and transport close) must not both pass it
+	if previous := s.readyState.Swap("closed"); previous != "closed" {
+		socket_log.Debug("readyState updated from %s to %s", previous, "closed")
 
-		s.SetReadyState("closed")
+		description = append(description, nil)
 
 		// clear timers
 		utils.ClearTimeout(s.pingIntervalTimer.Load())
@@ -546,11 +548,12 @@ func (s *socket) Close(discard bool) {
 		return
 	}
 
-	if s.ReadyState() != "open" {
+	// open -> closing as one atomic step: a concurrent OnClose must not be
+	// overwritten with "closing"
+	if !s.readyState.CompareAndSwap("open", "closing") {
 		return
 	}
-
-	s.SetReadyState("closing")
+	socket_log.Debug("readyState updated from %s to %s", "open", "closing")
 
 	if length := s.writeBuffer.Len(); length > 0 {
 		socket_log.Debug("there are %d remaining packets in the buffer, waiting for the 'drain' event", length)
